@@ -12,6 +12,15 @@ pub fn finish(ctx: &Ctx) -> i32 {
         .unwrap_or_else(|_| "/verif".into());
     let replay_dir = format!("{verif_dir}/replay/{}", ctx.id);
     let mut shown = 0;
+    // witnesses of an earlier run with the same tier and seed are stale
+    if let Ok(rd) = std::fs::read_dir(&replay_dir) {
+        let prefix = format!("{}-{}-", tier_name(ctx.tier), ctx.seed);
+        for e in rd.flatten() {
+            if e.file_name().to_string_lossy().starts_with(&prefix) {
+                std::fs::remove_file(e.path()).ok();
+            }
+        }
+    }
     for (n, v) in viols.iter().enumerate() {
         if let Some(k) = known.iter().find(|k| k.matches(&ctx.id, &v.signature)) {
             if printed_known.insert(k.signature.clone()) {
